@@ -13,6 +13,7 @@ import (
 	"strconv"
 	"strings"
 	"sync"
+	"sync/atomic"
 	"time"
 )
 
@@ -26,6 +27,7 @@ type WorkerResult struct {
 	CanaryOK    bool              `json:"canary_ok"`
 	Digests     map[string]string `json:"digests,omitempty"`
 	Capped      bool              `json:"capped"`
+	Fallbacks   []string          `json:"fallbacks,omitempty"`
 	Error       string            `json:"error,omitempty"`
 }
 
@@ -37,6 +39,29 @@ type WorkerViolation struct {
 // RunWorker runs `<binary> <id> <mode> <arg>` (binary relative to .build) and parses the
 // line "WORKERJSON {...}" from its stdout.  stderr (race reports) is kept in a file.
 func RunWorker(binary, id, mode, arg string, env ...string) (*WorkerResult, string, error) {
+	if stalledOnce.Load() {
+		env = append(append([]string{}, env...), "VERIF_NOGO=1")
+	}
+	res, se, err := runWorker(binary, id, mode, arg, env...)
+	if err == errStall {
+		stalledOnce.Store(true)
+		// a thread blocked in a primitive the explorer does not control (see schedx.StallAfter): once
+		// more, with the goroutines the code under test starts itself outside the explorer
+		res, se2, err2 := runWorker(binary, id, mode, arg, append(append([]string{}, env...), "VERIF_NOGO=1")...)
+		if res != nil {
+			res.Fallbacks = append(res.Fallbacks, "stall with library goroutines as explorer threads; repeated with VERIF_NOGO=1")
+		}
+		return res, se + se2, err2
+	}
+	return res, se, err
+}
+
+var errStall = fmt.Errorf("worker stalled")
+
+// stalledOnce: a worker of this check stalled; the remaining ones start with VERIF_NOGO=1 at once.
+var stalledOnce atomic.Bool
+
+func runWorker(binary, id, mode, arg string, env ...string) (*WorkerResult, string, error) {
 	bin := filepath.Join(BuildDir(), binary)
 	// a worker that does not come back (a changed tree may hang it) is killed: its own time cap plus a margin
 	limit := 20 * time.Minute
@@ -67,6 +92,9 @@ func RunWorker(binary, id, mode, arg string, env ...string) (*WorkerResult, stri
 			}
 			res = &r
 		}
+	}
+	if ee, ok := runErr.(*exec.ExitError); ok && res == nil && ee.ExitCode() == 97 {
+		return nil, errb.String(), errStall
 	}
 	if res == nil && ctx.Err() != nil {
 		return nil, errb.String(), fmt.Errorf("worker %s %s %s did not finish within %v and was killed", binary, id, mode, limit)
